@@ -691,6 +691,57 @@ func runC20(c *Ctx) {
 					}
 				}
 				if applied {
+					// ... and the options applied are the ones the rule passed: the slice ranged over is the closure's own
+					// parameter on every path (an options list replaced on some path loses the caller's At)
+					foreign := ""
+					for _, ref := range *a.Referrers() {
+						call, ok := ref.(*ssa.Call)
+						if !ok || call.Call.StaticCallee() != nil || call.Call.IsInvoke() {
+							continue
+						}
+						if n := namedOf(call.Call.Value.Type()); n == nil || n.Obj().Name() != "ErrorOption" {
+							continue
+						}
+						ld, ok := unspill(stripChange(call.Call.Value)).(*ssa.UnOp)
+						if !ok {
+							continue
+						}
+						ia, ok := ld.X.(*ssa.IndexAddr)
+						if !ok {
+							continue
+						}
+						var leaves func(v ssa.Value, seen map[ssa.Value]bool) []ssa.Value
+						leaves = func(v ssa.Value, seen map[ssa.Value]bool) []ssa.Value {
+							v = unspill(stripChange(v))
+							if seen[v] {
+								return nil
+							}
+							seen[v] = true
+							if ph, ok := v.(*ssa.Phi); ok {
+								var out []ssa.Value
+								for _, e := range ph.Edges {
+									out = append(out, leaves(e, seen)...)
+								}
+								return out
+							}
+							return []ssa.Value{v}
+						}
+						for _, lf := range leaves(ia.X, map[ssa.Value]bool{}) {
+							fromParam := false
+							for _, prm := range fn.Params {
+								if derivesFromAny(lf, prm, 6) {
+									fromParam = true
+								}
+							}
+							if !fromParam {
+								foreign = p.Pos(lf.Pos())
+							}
+						}
+					}
+					if foreign != "" {
+						r2.Fail(a.Pos(), site, "options applied to the error are not the caller's on every path", "on some path the option list applied to the new error is a list built here ("+foreign+") instead of the one the rule passed: the rule's At (and Message) are dropped, and the error has no location")
+						return
+					}
 					r2.OK("gqlerror.Error literal in "+site, "completed by the options of addError (R1 shows they include Message and At)")
 					return
 				}
